@@ -34,16 +34,16 @@ Definition d_place_read (s : SymbolSize) (e : list bool) : outcome unit (list N)
 
 Definition d_bitmap (s : SymbolSize) (e : list bool) : outcome unit (N * N * list bool) :=
   if negb (Nat.eqb (length e) (Z.to_nat (zh s * zw s))) then Panic PAssert
-  else let (w, bits) := bitmap false true s e in Ok (w, N.div (N.of_nat (length bits)) w, bits).
+  else let (w, bits) := bitmap_fast false true s e in Ok (w, N.div (N.of_nat (length bits)) w, bits).
 
 Definition d_bitmap_tag (s : SymbolSize) : N * list N :=
-  bitmap 0%N 1%N s (map (fun i => N.of_nat (i + 2)) (seq 0 (Z.to_nat (zh s * zw s)))).
+  bitmap_fast 0%N 1%N s (map (fun i => N.of_nat (i + 2)) (seq 0 (Z.to_nat (zh s * zw s)))).
 
-Definition d_from_bits (w : N) (bits : list bool) := try_from_bits bits w.
+Definition d_from_bits (w : N) (bits : list bool) := try_from_bits_fast bits w.
 
 Definition flip_nth (l : list bool) (k : nat) : list bool :=
   firstn k l ++ match skipn k l with [] => [] | b :: r => negb b :: r end.
 
 Definition d_from_bits_flip (s : SymbolSize) (e : list bool) (k : N) :=
   if negb (Nat.eqb (length e) (Z.to_nat (zh s * zw s))) then Panic PAssert
-  else let (w, bits) := bitmap false true s e in try_from_bits (flip_nth bits (N.to_nat k)) w.
+  else let (w, bits) := bitmap_fast false true s e in try_from_bits_fast (flip_nth bits (N.to_nat k)) w.
